@@ -194,7 +194,19 @@ def _r3(model, res, m):
         if f is None:
             raise AnalysisError('%s not found (anchor vanished)' % fname)
         radix = []
-        for n in walk_no_defs(f):
+        # the converter together with the module-local helpers it delegates to (a generator of digits, a per-letter value)
+        body_nodes, seen_f, todo = [], set(), [f]
+        while todo:
+            g_ = todo.pop()
+            if id(g_) in seen_f:
+                continue
+            seen_f.add(id(g_))
+            for n in walk_no_defs(g_):
+                body_nodes.append(n)
+                if isinstance(n, ast.Call) and isinstance(n.func, ast.Name) and n.func.id in m.functions \
+                        and n.func.id not in ('column_label_to_index', 'column_index_to_label'):
+                    todo.append(m.functions[n.func.id])
+        for n in body_nodes:
             if isinstance(n, ast.BinOp) and isinstance(n.op, (ast.Mod, ast.FloorDiv, ast.Div)):
                 v = guards.const_number(n.right, consts)
                 if v is not None:
@@ -218,7 +230,7 @@ def _r3(model, res, m):
                 if v is not None:
                     radix.append((src(n), v))
         # exact integer arithmetic: a quotient taken through a float is wrong from 2**53 on (labels of 12+ letters)
-        inexact = [n for n in walk_no_defs(f) if (isinstance(n, (ast.BinOp, ast.AugAssign)) and isinstance(n.op, ast.Div)) or
+        inexact = [n for n in body_nodes if (isinstance(n, (ast.BinOp, ast.AugAssign)) and isinstance(n.op, ast.Div)) or
                    (isinstance(n, ast.Call) and sa.call_name(n) in ('float', 'math.log', 'math.pow', 'math.fmod', 'math.log10', 'math.log2', 'pow')
                     and sa.call_name(n) != 'pow')]
         res.ob('R3', '%s:%s' % (m.name, fname), 'column arithmetic is exact integer arithmetic', not inexact, '; '.join(src(n) for n in inexact))
@@ -234,9 +246,9 @@ def _r3(model, res, m):
                           '%s must use the alphabet length 26 as its only radix; found %s' % (fname, bad or 'no radix arithmetic'), func=fname)
         # letter <-> digit mapping
         if fname == 'column_label_to_index':
-            finds = [n for n in walk_no_defs(f) if isinstance(n, ast.Call) and isinstance(n.func, ast.Attribute) and n.func.attr in ('find', 'index')
+            finds = [n for n in body_nodes if isinstance(n, ast.Call) and isinstance(n.func, ast.Attribute) and n.func.attr in ('find', 'index')
                      and isinstance(n.func.value, ast.Name) and n.func.value.id == aname]
-            ords = [n for n in walk_no_defs(f) if isinstance(n, ast.Call) and sa.call_name(n) == 'ord']
+            ords = [n for n in body_nodes if isinstance(n, ast.Call) and sa.call_name(n) == 'ord']
             okm = bool(finds) or bool(ords)
             res.ob('R3', '%s:%s' % (m.name, fname), 'letters are mapped through the alphabet constant', okm)
             # bijective numeration has no zero digit: a letter contributes its position in the alphabet plus one (A = 1 .. Z = 26)
@@ -251,7 +263,7 @@ def _r3(model, res, m):
                                   'zero digit), so with a zero digit labels of three or more letters collide with shorter ones whatever offset '
                                   'is added afterwards' % src(fnd), func=fname)
             # upper-cased before the lookup
-            ups = [n for n in walk_no_defs(f) if isinstance(n, ast.Call) and isinstance(n.func, ast.Attribute) and n.func.attr == 'upper']
+            ups = [n for n in body_nodes if isinstance(n, ast.Call) and isinstance(n.func, ast.Attribute) and n.func.attr == 'upper']
             oku = bool(ups) or not finds
             res.ob('R3', '%s:%s' % (m.name, fname), 'label is upper-cased before the alphabet lookup', oku)
             if finds and not ups:
@@ -277,15 +289,17 @@ def _r3(model, res, m):
                                           'the letters are zipped with %s, which does not depend on the label: letters beyond its length are '
                                           'silently dropped (labels of that many letters collide)' % src(op_), func=fname)
         else:
-            chrs = [n for n in walk_no_defs(f) if isinstance(n, ast.Call) and sa.call_name(n) == 'chr']
+            chrs = [n for n in body_nodes if isinstance(n, ast.Call) and sa.call_name(n) == 'chr']
             for n in chrs:
-                offs = [guards.const_number(x, consts) for x in ast.walk(n) if isinstance(x, ast.Constant) and isinstance(x.value, int)]
+                offs = [guards.const_number(x, consts) for x in ast.walk(n) if isinstance(x, (ast.Constant, ast.Name, ast.Attribute))]
+                offs += [ord(x.args[0].value) for x in ast.walk(n) if isinstance(x, ast.Call) and sa.call_name(x) == 'ord' and len(x.args) == 1
+                         and isinstance(x.args[0], ast.Constant) and isinstance(x.args[0].value, str) and len(x.args[0].value) == 1]
                 okc = any(o in (65, 97) for o in offs)
                 res.ob('R3', '%s:%s' % (m.name, fname), 'digit -> letter offset is ord("A")/ord("a")', okc, src(n))
                 if not okc:
                     res.violation('R3', '%s:%s:chr-offset' % (m.name, fname), m.where(n),
                                   'digits are turned into letters with %s; the offset must be 65 or 97' % src(n), func=fname)
-            subs = [n for n in walk_no_defs(f) if isinstance(n, ast.Subscript) and isinstance(n.value, ast.Name) and n.value.id == aname]
+            subs = [n for n in body_nodes if isinstance(n, ast.Subscript) and isinstance(n.value, ast.Name) and n.value.id == aname]
             res.ob('R3', '%s:%s' % (m.name, fname), 'letters produced by chr() or the alphabet constant', bool(chrs) or bool(subs))
 
 
